@@ -202,6 +202,10 @@ dt_strft(char *restrict buf, size_t bsz, const char *fmt, struct dt_t_s that)
 			bp += __strft_card(bp, eo - bp, spec, &d, that);
 		}
 	}
+	if (UNLIKELY(bp > buf + bsz)) {
+		/* a field printer reports the width it wanted, not what fit */
+		bp = buf + bsz;
+	}
 	if (bp < buf + bsz) {
 		*bp = '\0';
 	}
